@@ -61,3 +61,16 @@ Definition read_Z (bs : bytes) : Z :=
   | b :: r => if b2n b =? 45 then (- Z.of_N (read_N r))%Z else Z.of_N (read_N bs)
   | [] => 0%Z
   end.
+
+Fixpoint split_on_aux (sep : byte) (bs cur : bytes) : list bytes :=
+  match bs with
+  | [] => [rev cur]
+  | b :: r => if byte_eqb b sep then rev cur :: split_on_aux sep r [] else split_on_aux sep r (b :: cur)
+  end.
+Definition split_on (sep : byte) (bs : bytes) : list bytes :=
+  match bs with [] => [] | _ => split_on_aux sep bs [] end.
+
+Definition comma : byte := n2b 44.
+Definition colon : byte := n2b 58.
+Definition bar : byte := n2b 124.
+
